@@ -270,6 +270,8 @@ def assemble(unit_path, variant=None):
                     ann["seg_name"] = kv["seg"]; ann["seg_from"] = kv["from_stmt"]
                     if "to_stmt" in kv: ann["seg_to"] = kv["to_stmt"]
                     if "segret" in kv: ann["seg_ret"] = kv["segret"]
+                    if "brk" in kv: ann["seg_brk"] = kv["brk"]
+                    if "cont" in kv: ann["seg_cont"] = kv["cont"]
                 if "xb" in flags: ann["external_body"] = True
                 if "from" in kv:
                     # contract PROVED in another unit: copy its requires/ensures verbatim (labels become proved_in:<unit>:<label>)
